@@ -1028,3 +1028,29 @@ def poison_symbolic(pos: int, s: str, i: int) -> bool:
     ensures: _
     """
     return poison_sym_run(sel(pos, 5), s, i) == "ok"
+
+
+# --------------------------------------------------------------------- addition after the seeded-change round
+# Two levels of nesting (a Parallel inside a branch of a Parallel): accepted by the validator, so it must run.
+import s2_scenarios as _scn
+from vf.api import condition as _condition
+
+
+@_condition(timeout={"quick": 600, "thorough": 1800}, functions=["StateLint.validate on a depth-2 machine", "find_state (inner-most States object)"] + _scn.ENGINE_FUNCS)
+def nested_accepted_runs(c0: int, c1: int, c2: int, c3: int, c4: int, c5: int, c6: int, c7: int, c8: int, c9: int) -> str:
+    """
+    requires: True
+    ensures: _ == ""
+    """
+    inner = {"Type": "Parallel", "End": True, "Branches": [
+        {"StartAt": "L0", "States": {"L0": {"Type": "Pass", "Result": "l0", "Next": "Leaf1"}, "Leaf1": {"Type": "Pass", "Result": "l1", "End": True}}},
+        {"StartAt": "QT", "States": {"QT": _scn.task("fq", End=True)}}]}
+    asl = {"StartAt": "P", "States": {"P": {"Type": "Parallel", "End": True, "Branches": [
+        {"StartAt": "Q", "States": {"Q": inner}},
+        {"StartAt": "O", "States": {"O": _scn.task("fo", End=True)}}]}}}
+    from statelint.statelint import StateLint
+    problems = StateLint().validate(asl)
+    if problems:
+        return "validator rejects the nested machine: %r" % (problems,)
+    r = _scn.nested_par({"C18", "C02"}, False, c0, c1, c2, c3, c4, c5, c6, c7, c8, c9)
+    return r
